@@ -1033,14 +1033,16 @@ def trigger(case, viol):
         # features of the key -> directory-name mapping only matter for directory archives
         if any('/' in k for k in strs):
             t.append('slash-in-key')
-        if any(len(k) > 200 for k in strs):
+        if any(len(k) > 255 for k in strs):
             t.append('long-key')
         if any(k == '' for k in strs):
             t.append('empty-key')
         if any(k.startswith('.I_') for k in strs):
             t.append('temp-prefix-key')
-        elif any(k.startswith('.') for k in strs):
+        elif any(k in ('.h', '..') for k in strs):
             t.append('dot-key')
+        # (a 229-character key and '.cfg' are ordinary members of the key pools since wave i: their mere presence in
+        # a case is not a trigger)
     if label.startswith('dir'):
         names = {}
         for k in ks:
